@@ -101,8 +101,7 @@ func boothDigit6(v uint) (d uint, neg uint) {
 
 // checkBase runs ScalarBaseMult on the byte string b (integer k) through the curve API and,
 // for 32-byte strings, through the point type.
-func (e *env) checkBase(c *mon.Case, k *big.Int, b []byte) {
-	want := refBase(k)
+func (e *env) checkBase(c *mon.Case, k *big.Int, b []byte, want ec.Point) {
 	var gx, gy *big.Int
 	in := append([]byte{}, b...)
 	if c.Call("ScalarBaseMult", func() { gx, gy = e.cv.ScalarBaseMult(in) }) {
@@ -137,8 +136,7 @@ func (e *env) checkBase(c *mon.Case, k *big.Int, b []byte) {
 }
 
 // checkVar runs ScalarMult on point q and byte string b (integer k).
-func (e *env) checkVar(c *mon.Case, q *npoint, k *big.Int, b []byte) {
-	want := q.mul(k)
+func (e *env) checkVar(c *mon.Case, q *npoint, k *big.Int, b []byte, want ec.Point) {
 	px, py := affine(q.p)
 	var gx, gy *big.Int
 	in := append([]byte{}, b...)
@@ -216,78 +214,93 @@ func lengthScalar(r *mon.Rand, kind string, n int) []byte {
 	return b
 }
 
-// forEachScalarCase enumerates the scalar families shared by basemult and scalarmult and calls
-// run for each generated case. begin receives the family-specific description; gen produces
-// the byte string once the case is selected.
+// scalarCases enumerates the scalar families shared by basemult and scalarmult. gen produces,
+// once the case is selected, the integer k, its byte string b and optionally a split k = hi + lo
+// whose part hi recurs in other cases (the oracle remembers [hi]P). pkey selects the operand of
+// the variable-point workload: cases with the same pkey use the same point.
 type scalarCase struct {
 	desc  string
 	class string
-	gen   func(r *mon.Rand) (k *big.Int, b []byte)
+	pkey  int
+	gen   func(r *mon.Rand) (k *big.Int, b []byte, hi *big.Int)
 }
 
 func (e *env) scalarCases(yield func(sc scalarCase)) {
 	x := e.x
+	pkey := 0
 	// 1. edge values in three byte-string forms
 	for _, s := range e.edges {
+		pkey++
 		for mode := 0; mode < 3; mode++ {
 			s, mode := s, mode
 			yield(scalarCase{
 				desc:  fmt.Sprintf("edge scalar %s form=%s", s.name, modeName[mode]),
 				class: fmt.Sprintf("edge/%s/%s", s.class, modeName[mode]),
-				gen:   func(r *mon.Rand) (*big.Int, []byte) { return s.v, scalarBytes(s.v, mode, r) },
+				pkey:  pkey,
+				gen: func(r *mon.Rand) (*big.Int, []byte, *big.Int) {
+					return s.v, scalarBytes(s.v, mode, r), s.v
+				},
 			})
 		}
 	}
-	// 2. every 7-bit input of the width-6 Booth recoding at each of the 43 windows
+	// 2. every 7-bit input of the width-6 Booth recoding at each of the 43 windows, over a zero
+	// background and over random backgrounds (one background per window and repetition, derived
+	// from the seed; the 128 inputs of a window share it so that the oracle can reuse its part)
 	reps := x.Scale(1, 6)
 	for w := 0; w < 43; w++ {
-		for v := uint(0); v < 128; v++ {
-			if w == 0 && v&1 == 1 {
-				continue // the bit below window 0 is the virtual zero
+		f := w6field(w)
+		for rep := 0; rep <= reps; rep++ {
+			var back *big.Int
+			bg := "zero"
+			if rep > 0 {
+				bg = "random"
+				back = f.place(0, new(big.Int).SetBytes(mon.NewRand(x.Seed, "c05.background6", w, rep).Bytes(32)))
 			}
-			f := w6field(w)
-			d, neg := boothDigit6(v)
-			for rep := 0; rep <= reps; rep++ {
-				w, v, rep := w, v, rep
-				bg := "zero"
-				if rep > 0 {
-					bg = "random"
+			pk := pkey + 1
+			for v := uint(0); v < 128; v++ {
+				if w == 0 && v&1 == 1 {
+					continue // the bit below window 0 is the virtual zero
 				}
+				if rep == 0 {
+					pk = pkey + 1 + int(v)
+				}
+				d, neg := boothDigit6(v)
+				v := v
 				yield(scalarCase{
 					desc:  fmt.Sprintf("window sweep width=6 window=%d bits[%d..%d]=%07b background=%s rep=%d", w, f.lo, f.lo+6, v, bg, rep),
 					class: fmt.Sprintf("w6/w%d/d%d/s%d/%s", w, d, neg, bg),
-					gen: func(r *mon.Rand) (*big.Int, []byte) {
-						var back *big.Int
-						if rep > 0 {
-							back = new(big.Int).SetBytes(r.Bytes(32))
-						}
+					pkey:  pk,
+					gen: func(r *mon.Rand) (*big.Int, []byte, *big.Int) {
 						k := f.place(v, back)
-						return k, k.FillBytes(make([]byte, 32))
+						return k, k.FillBytes(make([]byte, 32)), back
 					},
 				})
 			}
+			pkey += 129
 		}
 	}
 	// 3. width-5 windows (52 positions x 64 inputs): thorough only
 	if x.Thorough() {
 		for w := 0; w < 52; w++ {
-			for v := uint(0); v < 64; v++ {
-				if w == 0 && v&1 == 1 {
-					continue
+			f := w5field(w)
+			for rep := 0; rep < 2; rep++ {
+				var back *big.Int
+				if rep > 0 {
+					back = f.place(0, new(big.Int).SetBytes(mon.NewRand(x.Seed, "c05.background5", w, rep).Bytes(32)))
 				}
-				f := w5field(w)
-				for rep := 0; rep < 2; rep++ {
-					v, rep := v, rep
+				pkey++
+				for v := uint(0); v < 64; v++ {
+					if w == 0 && v&1 == 1 {
+						continue
+					}
+					v := v
 					yield(scalarCase{
 						desc:  fmt.Sprintf("window sweep width=5 window=%d bits[%d..%d]=%06b rep=%d", w, f.lo, f.lo+5, v, rep),
 						class: fmt.Sprintf("w5/w%d/v%d", w, v),
-						gen: func(r *mon.Rand) (*big.Int, []byte) {
-							var back *big.Int
-							if rep > 0 {
-								back = new(big.Int).SetBytes(r.Bytes(32))
-							}
+						pkey:  pkey,
+						gen: func(r *mon.Rand) (*big.Int, []byte, *big.Int) {
 							k := f.place(v, back)
-							return k, k.FillBytes(make([]byte, 32))
+							return k, k.FillBytes(make([]byte, 32)), back
 						},
 					})
 				}
@@ -295,39 +308,51 @@ func (e *env) scalarCases(yield func(sc scalarCase)) {
 		}
 	}
 	// 4. byte lengths 0..40
-	lreps := x.Scale(2, 12)
+	lreps := x.Scale(1, 12)
 	for n := 0; n <= 40; n++ {
 		for _, kind := range lengthKinds {
 			for rep := 0; rep < lreps; rep++ {
 				n, kind := n, kind
+				pkey++
 				yield(scalarCase{
 					desc:  fmt.Sprintf("scalar of %d bytes kind=%s rep=%d", n, kind, rep),
 					class: fmt.Sprintf("len/%d/%s", n, kind),
-					gen: func(r *mon.Rand) (*big.Int, []byte) {
+					pkey:  pkey,
+					gen: func(r *mon.Rand) (*big.Int, []byte, *big.Int) {
 						b := lengthScalar(r, kind, n)
-						return new(big.Int).SetBytes(b), b
+						return new(big.Int).SetBytes(b), b, nil
 					},
 				})
 			}
 		}
 	}
 	// 5. uniform 32-byte scalars, and uniform scalars below n
-	nr := x.Scale(600, 20000)
+	nr := x.Scale(400, 20000)
 	for i := 0; i < nr; i++ {
 		i := i
+		pkey++
 		yield(scalarCase{
 			desc:  fmt.Sprintf("uniform scalar #%d", i),
 			class: fmt.Sprintf("uniform/%d", i%2),
-			gen: func(r *mon.Rand) (*big.Int, []byte) {
+			pkey:  pkey,
+			gen: func(r *mon.Rand) (*big.Int, []byte, *big.Int) {
 				if i%2 == 0 {
 					b := r.Bytes(32)
-					return new(big.Int).SetBytes(b), b
+					return new(big.Int).SetBytes(b), b, nil
 				}
 				k := r.BigBelow(ec.N)
-				return k, k.FillBytes(make([]byte, 32))
+				return k, k.FillBytes(make([]byte, 32)), nil
 			},
 		})
 	}
+}
+
+// split returns (hi, lo) for the oracle: k = hi + lo with hi nil when nothing recurs.
+func split(k, hi *big.Int) (*big.Int, *big.Int) {
+	if hi == nil {
+		return nil, k
+	}
+	return hi, sub(k, hi)
 }
 
 func baseMult(x *mon.Ctx) {
@@ -338,11 +363,11 @@ func baseMult(x *mon.Ctx) {
 			return
 		}
 		c.Class("base/%s", s.class)
-		k, b := s.gen(c.R)
+		k, b, hi := s.gen(c.R)
 		if k.Sign() == 0 {
 			c.Trivial()
 		}
-		e.checkBase(c, k, b)
+		e.checkBase(c, k, b, gTab.mulSplit(split(k, hi)))
 		c.End()
 	})
 }
@@ -350,22 +375,20 @@ func baseMult(x *mon.Ctx) {
 func scalarMult(x *mon.Ctx) {
 	e := setup(x, x.Scale(12, 48), true)
 	all := e.ps.all
-	idx := 0
 	e.scalarCases(func(s scalarCase) {
-		idx++
 		// the operand cycles through the point set; 7 is coprime to every plausible set size so
 		// that each scalar family meets every point kind
-		q := all[(idx*7)%len(all)]
+		q := all[(s.pkey*7)%len(all)]
 		c := x.Begin("ScalarMult: point=%s %s", q.name, s.desc)
 		if c == nil {
 			return
 		}
 		c.Class("var/%s/%s", q.kind, s.class)
-		k, b := s.gen(c.R)
+		k, b, hi := s.gen(c.R)
 		if k.Sign() == 0 || q.p.Inf {
 			c.Trivial()
 		}
-		e.checkVar(c, q, k, b)
+		e.checkVar(c, q, k, b, q.mulSplit(split(k, hi)))
 		c.End()
 	})
 	// every point of the set with the key scalars
@@ -393,7 +416,7 @@ func scalarMult(x *mon.Ctx) {
 			if k.Sign() == 0 || q.p.Inf {
 				c.Trivial()
 			}
-			e.checkVar(c, q, k, b)
+			e.checkVar(c, q, k, b, q.mul(k))
 			c.End()
 		}
 	}
@@ -412,9 +435,9 @@ func scalarMult(x *mon.Ctx) {
 			case "33":
 				k = bi(33)
 			default:
-				k = new(big.Int).SetBytes(c.R.Bytes(32))
+				k = new(big.Int).SetBytes(c.R.Bytes(c.R.Range(4, 32)))
 			}
-			e.checkVar(c, q, k, k.FillBytes(make([]byte, 32)))
+			e.checkVar(c, q, k, k.FillBytes(make([]byte, 32)), q.mul(k))
 			c.End()
 		}
 	}
@@ -425,6 +448,9 @@ func combined(x *mon.Ctx) {
 	e := setup(x, x.Scale(12, 48), true)
 	rels := []string{"equal", "inverse", "generic", "s1=0", "s2=0", "both=0", "s1=n", "s2=n"}
 	s2kinds := []string{"1", "2", "n-1", "random", "random", "edge", "edge", "long"}
+	if !x.Thorough() {
+		s2kinds = []string{"2", "random", "n-1", "edge", "long"}
+	}
 	reps := x.Scale(1, 8)
 	for _, q := range append(append([]*npoint{}, e.ps.all...), e.ps.sparse...) {
 		sparse := q.kind == "sparse-x" || q.kind == "sparse-y"
@@ -439,7 +465,10 @@ func combined(x *mon.Ctx) {
 				if rel != "equal" && rel != "inverse" && rel != "generic" && ki > 1 {
 					continue
 				}
-				if sparse && (ki == 0 || ki > 3) {
+				if rel == "generic" && !x.Thorough() && ki != 1 && ki != 3 {
+					continue
+				}
+				if sparse && ki > 1 {
 					continue
 				}
 				for rep := 0; rep < reps; rep++ {
